@@ -22,6 +22,7 @@
     power-of-two frame rate. *)
 From Coq Require Import ZArith List Bool Reals.
 From Flocq Require Import Core.
+From NS Require Gen.TrF Proofs.TrEquivF18.
 From NS Require Import Base.FloatBridge Gen.G18 Model.FramesRoll
   Proofs.FramesRoll Proofs.FramesRollFloat Proofs.FramesRollGrid Proofs.FramesRollPaint Proofs.FramesRollRolls.
 Import ListNotations.
@@ -360,3 +361,11 @@ Print Assumptions C18_premise_nonvacuous.
 Example C18_pow2_rate_nonvacuous : fin (fz 16) /\ R_of (fz 16) = bpow radix2 4.
 Proof. exact pow2_rate_nonvacuous_proof. Qed.
 Print Assumptions C18_pow2_rate_nonvacuous.
+
+(** Source-level tie (second kind): the nested function frames_from_times of sequence_to_pianoroll, re-translated
+    from its SOURCE on every run into PrimFloat terms (Gen/TrF.v, harness/vt/pytr.py; the closure's free variables
+    are parameters), equals the hand-written model for all arguments, bit for bit. *)
+Theorem C18_source_frames_from_times : forall fps occ s e,
+  NS.Gen.TrF.trf_frames_from_times fps occ s e = Some (frames_from_times fps occ s e).
+Proof. exact NS.Proofs.TrEquivF18.trf_frames_from_times_eq. Qed.
+Print Assumptions C18_source_frames_from_times.
